@@ -203,6 +203,73 @@ pub fn oracle_c05(scn: &E3Scn, d: &D3, out: &RunOut, stats: &mut Stats) -> Vec<V
         let queued = delay > 0 && prev > b.0;
         dec.push((b.0.max(if delay > 0 { prev } else { 0 }) + delay, queued));
     }
+    // (4q) queue mode, with or without --delay-run: every run after the first has a cause. A batch of changes is decided
+    // at dec(b) (the --delay-run sleeps and the state queries queue up on the job one behind the other). A decision
+    // that finds the command idle starts it; one that finds run r going on starts it when the job task has seen run r
+    // end ("waits until the command has finished, then starts it once more"). Either way the Start goes to the back
+    // of the job's queue, behind the delays of batches handled in the meantime. A run that starts at any other
+    // instant - e.g. at the end of a *later* run, because whoever waited for the end of run r was not told about it -
+    // has no change to answer for it.
+    if mode == "queue" && d.spawn_fails == 0 && pre.iter().all(|(_, c)| c.faults == 0) {
+        // (e0, effect): the Start is queued at e0 and runs at `effect`, per batch
+        let n = change_batches.len();
+        let effect_of = |e0: u64| -> [u64; 2] {
+            let strict = change_batches.iter().enumerate().filter(|(_, o)| o.0 < e0).map(|(j, _)| dec[j].0).max().unwrap_or(0);
+            let incl = change_batches.iter().enumerate().filter(|(_, o)| o.0 <= e0).map(|(j, _)| dec[j].0).max().unwrap_or(0);
+            [e0.max(strict), e0.max(incl)]
+        };
+        let mut eff: Vec<Vec<(u64, u64)>> = vec![Vec::new(); n];
+        // a process started at the very instant of a decision was there *before* the decision only if the Start that
+        // started it was queued no later than the deciding batch's own closures (the queue is first in, first out):
+        // that needs another batch to answer for it. Iterated to a fixed point (the relation is monotone).
+        for _round in 0..4 {
+            for bi in 0..n {
+                let (tb, td) = (change_batches[bi].0, dec[bi].0);
+                let mut e0s: Vec<u64> = Vec::new();
+                let mut strictly_running = false;
+                for (_, c) in kids.iter() {
+                    let reap_t = c.reaped.map(|r| r.0);
+                    if c.spawn_t <= td && reap_t.map(|r| r >= td).unwrap_or(true) {
+                        if c.spawn_t == td {
+                            let by_other = (0..n).any(|o| o != bi && eff[o].iter().any(|(e0, at)| *at == td && *e0 <= tb));
+                            if !by_other {
+                                continue;
+                            }
+                        }
+                        if let Some(r) = reap_t {
+                            e0s.push(r);
+                        }
+                        if c.spawn_t < td && reap_t.map(|r| r > td).unwrap_or(true) {
+                            strictly_running = true;
+                        }
+                    }
+                }
+                if !strictly_running {
+                    e0s.push(td);
+                }
+                let mut v: Vec<(u64, u64)> = Vec::new();
+                for e0 in e0s {
+                    for at in effect_of(e0) {
+                        v.push((e0, at));
+                    }
+                }
+                v.sort();
+                v.dedup();
+                eff[bi] = v;
+            }
+        }
+        let cands: Vec<u64> = eff.iter().flatten().map(|x| x.1).collect();
+        for (k, c) in pre.iter().skip(1) {
+            stats.hit("probe:queue-run-cause-judged");
+            if !cands.contains(&c.spawn_t) {
+                vs.push(Violation::new(
+                    "queue-run-without-cause",
+                    if delay > 0 { "delay-run" } else { "" },
+                    format!("queue mode: child {k} was started at t={} - no batch of changes was decided then (decisions at {:?}), and none was waiting for a run that ended then", c.spawn_t, dec.iter().map(|x| x.0).collect::<Vec<_>>()),
+                ));
+            }
+        }
+    }
     for (bi, b) in change_batches.iter().enumerate() {
         let (tb, bseq) = (b.0, b.1);
         let (td, queued) = dec[bi];
@@ -632,6 +699,43 @@ pub fn gen_cli_delay(rng: &mut Rng) -> E3Scn {
     s
 }
 
+/// --delay-run, one change decided while run 1 is going on (in queue mode: somebody now waits for its end) and a
+/// second one whose delay sleep spans the end of run 1: the job task is inside a closure when its process ends, and
+/// whoever waits for that end has to be told once the closure is over - not at the end of some later run
+pub fn gen_cli_delay_span(rng: &mut Rng) -> E3Scn {
+    let mut s = gen_cli(rng);
+    s.family = "cli-delay-span".into();
+    s.mode = rng.pick(&["queue", "queue", "do-nothing", "signal", "restart"]).to_string();
+    if s.mode != "signal" {
+        s.signal = None;
+    }
+    s.spelling = "long".into();
+    s.postpone = false;
+    s.map_signals.clear();
+    s.spawn_fail.clear();
+    let d = *rng.pick(&[5u64, 50]);
+    s.delay_run_ms = Some(d);
+    s.debounce_ms = 0;
+    let life = d + *rng.pick(&[3u64, 10, 40, 100]) + d * rng.below(3);
+    let life2 = *rng.pick(&[life, 7, 30, 300]);
+    s.children = vec![
+        ChildSpec { self_exit: Some(life), on_signal: SigReact::Exit(0), ..Default::default() },
+        ChildSpec { self_exit: Some(life2), on_signal: SigReact::Exit(0), ..Default::default() },
+        ChildSpec { self_exit: Some(*rng.pick(&[5u64, 60])), on_signal: SigReact::Exit(0), ..Default::default() },
+    ];
+    // run 1: [d, d + life]
+    let end = d + life;
+    let a = rng.range(d + 1, end - d); // decided at a + d <= end
+    let lo = (end - d + 1).max(a);
+    let b = rng.range(lo, end.max(lo + 1) - 1).max(lo); // its sleep starts before `end` and is over after it
+    let mut steps = vec![E3Step { gap: a, kind: E3Kind::Change { id: 10 } }, E3Step { gap: b - a, kind: E3Kind::Change { id: 11 } }];
+    for i in 0..rng.below(3) {
+        steps.push(E3Step { gap: *rng.pick(&[0u64, 1, d, life2, life2 + d, 500]), kind: E3Kind::Change { id: 12 + i as u32 } });
+    }
+    s.steps = steps;
+    s
+}
+
 pub fn shrink_e3(s: &E3Scn) -> Vec<E3Scn> {
     let mut out = Vec::new();
     for i in 0..s.steps.len() {
@@ -735,6 +839,7 @@ impl Check for C05 {
     fn generate(&self, rng: &mut Rng, idx: u64, _tier: Tier) -> Option<E3Scn> {
         Some(match idx % 4 {
             3 => gen_cli_race(rng),
+            2 if idx % 8 == 6 => gen_cli_delay_span(rng),
             2 => gen_cli_delay(rng),
             1 if idx % 8 == 5 => gen_cli_mapped(rng),
             _ => gen_cli(rng),
